@@ -86,3 +86,36 @@ func selftest(id string, pc *PropConfig, kf *KFFile, seed int) int {
 	}
 	return 0
 }
+
+// runWitnesses re-runs the witness of every known finding of the property against the real code (thorough tier).
+// A witness is a Go test file injected with -overlay into WitnessDir; the finding reproduces when the test fails.
+func runWitnesses(id string, kf *KFFile) {
+	for _, k := range kf.Findings {
+		if k.Property != id || k.Witness == "" || k.WitnessDir == "" {
+			continue
+		}
+		tmp, err := os.MkdirTemp(filepath.Join(verifDir, "work"), "witness")
+		if err != nil {
+			continue
+		}
+		ov, _ := json.Marshal(map[string]any{"Replace": map[string]string{filepath.Join(k.WitnessDir, "zz_govc_witness_test.go"): k.Witness}})
+		ovFile := filepath.Join(tmp, "overlay.json")
+		os.WriteFile(ovFile, ov, 0o644)
+		out, err := runGoTest(k.WitnessDir, ovFile, "TestGovcWitness", 20)
+		os.RemoveAll(tmp)
+		if err != nil {
+			fmt.Printf("known finding witness reproduced on the real code: %s (%s)\n", k.Witness, firstLine(lastLines(out, 40)))
+		} else {
+			fmt.Printf("NOTE: the witness of a known finding no longer fails on the real code: %s\n", k.Witness)
+		}
+	}
+}
+
+func lastLines(s string, n int) string {
+	for _, l := range strings.Split(s, "\n") {
+		if strings.HasPrefix(l, "panic:") || strings.HasPrefix(l, "fatal error:") || strings.HasPrefix(l, "--- FAIL") {
+			return l
+		}
+	}
+	return s
+}
